@@ -968,7 +968,7 @@ def c18_programs(rnd, n):
     """accepted-looking programs whose label references are label, label+n, label-n; ORG first, origin >= $100"""
     out = []
     for _ in range(n):
-        org = rnd.choice([0x0E00, 0x1000, 0x3F00, 0x7000, 0x200])
+        org = rnd.choice([0x0E00, 0x1000, 0x3F00, 0x7000, 0x200, 0x10, 0x80, 0xF0, 0x00])
         body = []
         nst = rnd.randrange(3, 18)
         labels = ["LA", "LB", "LOOP", "DATA1", "Q9"]
@@ -1037,8 +1037,8 @@ def run_c18(run, thorough=False):
         lines = c["lines"]
         org = c["meta"]["org"]
         D = rnd.choice([1, 2, 0x10, 0x100, 0x1000, -0x100, 0x7F, 0x3001])
-        if not (0x100 <= org + D <= 0xB000):
-            D = 0x100
+        if not (0 <= org + D <= 0xB000):
+            D = 0x100          # origins below $100 and moves across $100 are included since fix f6fd08e / 985348a made the code uniform there
         D = c["meta"].get("D", D)
         shifted = [l.replace("ORG $%04X" % org, "ORG $%04X" % (org + D)) for l in lines]
         names = c["meta"]["labels"]
